@@ -502,7 +502,104 @@ fn huge_binary_strategy() -> impl Strategy<Value = Forward> {
         })
 }
 
+// ---------------------------------------------------------------------------------------------
+// The same document written at a chosen distance from the end of the writer's buffer
+
+#[derive(Serialize, Deserialize, Clone, Debug, PartialEq, Eq, Hash)]
+pub struct AtEnd {
+    pub fwd: Forward,
+    /// Selects the token (a position behind a blank or line end; any byte in binary sections).
+    pub pick: u16,
+    /// Bytes left in the 16 KiB buffer when that token is written.
+    pub free: u8,
+}
+
+fn write_forward(c: &Forward) -> Option<Vec<u8>> {
+    match &c.doc {
+        Doc::Dimacs(d) => Some(d.write_with_crate(c.spec.lit)),
+        Doc::Aiger(d) => {
+            let writer = c.writer.unwrap_or(if d.binary { AigWriter::BinaryOrdered } else { AigWriter::AsciiAig });
+            Some(write_aiger_with_crate(&d.aig, c.spec.lit, writer))
+        }
+        other => write_with_crate(other, &c.spec),
+    }
+}
+
+/// Writing is a pure function of the value: placing the document's bytes anywhere relative to the
+/// buffer end (here: a chosen token `free` bytes in front of it) must not change them, and must
+/// not trip the writer's own debug assertions or the sanitizer.
+pub fn check_at_buffer_end(c: &AtEnd, obs: &mut Obs) -> CheckResult {
+    const CAP: usize = 16 << 10;
+    let p = c.fwd.spec.parser.name();
+    let base = match std::panic::catch_unwind(std::panic::AssertUnwindSafe(|| write_forward(&c.fwd))) {
+        Ok(Some(b)) => b,
+        Ok(None) => return Ok(()),
+        Err(_) => return Ok(()), // outside the writer's domain; `forward` reports writer panics
+    };
+    if base.is_empty() {
+        return Ok(());
+    }
+    let binary = base.starts_with(b"aig ");
+    let starts: Vec<usize> = (0..base.len())
+        .filter(|&i| i == 0 || matches!(base[i - 1], b' ' | b'\n') || (binary && i > base.iter().position(|&b| b == b'\n').unwrap_or(0)))
+        .collect();
+    let t = starts[(c.pick as usize * starts.len()) >> 16];
+    let pad = (2 * CAP - c.free as usize - (t % CAP)) % CAP;
+    obs.class(format!("parser/{p}"));
+    obs.class(format!("free/{}", match c.free { 0 => "0", 1..=8 => "1-8", 9..=11 => "9-11", 12..=19 => "12-19", 20..=22 => "20-22", _ => ">22" }));
+    obs.nontrivial();
+    let padded = std::panic::catch_unwind(std::panic::AssertUnwindSafe(|| crate::inputs::with_write_pad(pad, || write_forward(&c.fwd))));
+    match padded {
+        Ok(Some(b)) if b == base => Ok(()),
+        Ok(Some(b)) => {
+            let at = b.iter().zip(base.iter()).position(|(x, y)| x != y).unwrap_or(b.len().min(base.len()));
+            fail!(
+                format!("C03:{p}:at-buffer-end:differs"),
+                "{}: with byte {} of the document {} bytes in front of the end of the writer's buffer the written text differs from byte {} on ({} vs {} bytes); document {:?}",
+                c.fwd.spec.describe(),
+                t,
+                c.free,
+                at,
+                b.len(),
+                base.len(),
+                show_bytes(&base)
+            )
+        }
+        Ok(None) => Ok(()),
+        Err(e) => fail!(
+            format!("C03:{p}:at-buffer-end:panic"),
+            "{}: with byte {} of the document {} bytes in front of the end of the writer's buffer the writer panicked: {}; document {:?}",
+            c.fwd.spec.describe(),
+            t,
+            c.free,
+            crate::engine::panic_message(&e),
+            show_bytes(&base)
+        ),
+    }
+}
+
+pub fn at_end_strategy() -> impl Strategy<Value = AtEnd> {
+    (
+        prop_oneof![3 => forward_strategy().boxed(), 1 => huge_binary_strategy().boxed()],
+        any::<u16>(),
+        prop_oneof![3 => 0u8..=45, 1 => proptest::sample::select(vec![8u8, 9, 10, 11, 19, 20, 21, 39, 40])],
+    )
+        .prop_map(|(mut fwd, pick, free)| {
+            // extreme numbers where the format has 64-bit fields
+            if let Doc::Dimacs(d) = &mut fwd.doc {
+                for (k, (x, _)) in d.clauses.iter_mut().enumerate() {
+                    if (pick as usize + k) % 3 == 0 && d.kind != ParserId::Cnf {
+                        *x = [u64::MAX, 10_000_000_000_000_000_000, u64::MAX - 1, 1 << 63][k % 4];
+                    }
+                }
+            }
+            AtEnd { fwd, pick, free }
+        })
+}
+
 fn run(ctx: &Ctx) {
+    let n = ctx.share(ctx.tier.pick(300_000, 12_000_000));
+    ctx.run_cases("forward-at-buffer-end", n, at_end_strategy(), check_at_buffer_end);
     let n = ctx.share(ctx.tier.pick(800_000, 40_000_000));
     ctx.run_cases("forward", n, forward_strategy(), check_forward);
     // BTOR2 constants from candidate strings: whatever the validating constructors accept must
@@ -546,6 +643,10 @@ fn run(ctx: &Ctx) {
 
 fn replay(oracle: &str, v: &Value) -> Option<CheckResult> {
     match oracle {
+        "forward-at-buffer-end" => Some(match replay_from_file::<AtEnd>(v) {
+            Ok(c) => check_at_buffer_end(&c, &mut Obs::default()),
+            Err(e) => Err(Failure::new("C03:decode", e)),
+        }),
         "forward" | "forward-huge-binary" | "forward-constructor-candidates" => Some(match replay_from_file::<Forward>(v) {
             Ok(c) => check_forward(&c, &mut Obs::default()),
             Err(e) => Err(Failure::new("C03:decode", e)),
